@@ -287,10 +287,28 @@ class VariableRangeAnalysis(IRAnalysis):
         elif isinstance(lhs, IRVariable) and isinstance(rhs, IRVariable):
             lhs_range = state.get(lhs, ValueRange.top())
             rhs_range = state.get(rhs, ValueRange.top())
-            new_range = lhs_range.intersect(rhs_range)
-            self._write_range(state, lhs, new_range)
-            self._write_range(state, rhs, new_range)
+            new_range = self._eq_range(lhs_range, rhs_range)
+            if new_range is not None:
+                self._write_range(state, lhs, new_range)
+                self._write_range(state, rhs, new_range)
         return state
+
+    def _eq_range(self, lhs_range: ValueRange, rhs_range: ValueRange) -> Optional[ValueRange]:
+        """
+        Range of two variables known to hold the same word, or None when
+        nothing can be concluded.
+
+        A word >= 2**255 is denoted by a negative bound in one range and by a
+        bound above SIGNED_MAX in another, so the bounds of the two ranges
+        may only be intersected when both ranges use the same representation.
+        """
+        if lhs_range.is_top or rhs_range.is_top or lhs_range.is_empty or rhs_range.is_empty:
+            return lhs_range.intersect(rhs_range)
+        both_unsigned = lhs_range.lo >= 0 and rhs_range.lo >= 0
+        both_signed = lhs_range.hi <= SIGNED_MAX and rhs_range.hi <= SIGNED_MAX
+        if not (both_unsigned or both_signed):
+            return None
+        return lhs_range.intersect(rhs_range)
 
     def _apply_compare(self, inst: IRInstruction, is_true: bool, state: RangeState) -> RangeState:
         """Apply comparison-based branch refinement.
